@@ -186,18 +186,18 @@ def main():
     ck = Check("C09")
     if ck.replay:
         body = json.load(open(os.path.join(VERIF, ck.replay) if not os.path.isabs(ck.replay) else ck.replay))
-        run_case(ck, body["case"])
+        ck.guard(run_case, ck, body["case"])
         ck.finish(rule="replay of one recorded case")
     ck.lean_obligations("CvProps.C09", THEOREMS)
     for case in json.load(open(os.path.join(VERIF, "harness", "corpus", "C09.json"))):
-        run_case(ck, case)
+        ck.guard(run_case, ck, case)
         ck.count("corpus")
     n = 150 if not ck.thorough else 4000
     cap = 1200 if not ck.thorough else 30000
     for _ in range(n):
         if ck.enough():
             break
-        run_case(ck, gen_case(ck, cap))
+        ck.guard(run_case, ck, gen_case(ck, cap))
     # all limit values 1..ecc+2 on a few graphs (exhaustive over the limit)
     for _ in range(4 if not ck.thorough else 20):
         if ck.enough():
@@ -207,7 +207,7 @@ def main():
         ecc = len(gd.brute_layers(cap=10**6)) - 1
         for d in range(1, ecc + 3):
             c = dict(base, stop=None, opts={"max_diameter": d, "return_all_hashes": True, "max_layer_size_to_store": 2})
-            run_case(ck, c)
+            ck.guard(run_case, ck, c)
             ck.count("limit-sweep")
     ck.assumptions = ["hash injective on the explored set (hook H2); callbacks drawn from the families at/size/has/never"]
     ck.finish(
@@ -217,4 +217,6 @@ def main():
 
 
 if __name__ == "__main__":
-    main()
+    from cv.core import run_main
+
+    run_main(main)
